@@ -44,7 +44,10 @@ EvRecover ==
                                    /\ \A k \in 1..Len(E.listed) : E.listed[k][2] \in Ids => GetOf(E.listed[k][2]).ok
                                    /\ (E.unknown > 0 => pend.op = "write" /\ E.unknown = 1 /\ E.unknown_ok))
        \cup Flag("C04_RemovedStayGone", \A i \in Ids : (~store[i].live /\ ~(pend.op = "write")) => ListedTs(i) = -1 \/ On(i))
-       \cup Flag("C04_Resumes", \A i \in Ids : (store[i].live /\ ~On(i) /\ store[i].rc # <<>>) => /\ \E k \in 1..Len(E.attempted) : E.attempted[k] = i
+       \cup Flag("C04_Resumes", \A i \in Ids : (/\ store[i].live /\ store[i].rc # <<>>
+                                                       \* (the message the interrupted operation worked on: unless that was its removal, or
+                                                       \*  the marking of its last recipients, it is still to be delivered)
+                                                       /\ ~(On(i) /\ pend.op = "remove") /\ (On(i) => After(i).rc # <<>>)) => /\ \E k \in 1..Len(E.attempted) : E.attempted[k] = i
                                                                                                      \* ... and again after a failure
                                                                                                      /\ \E k2 \in 1..Len(E.attempted2) : E.attempted2[k2] = i)
 Next == /\ l <= Len(Tr) /\ (EvCall \/ EvRet \/ EvCrash \/ EvRecover) /\ l' = l + 1 /\ UNCHANGED tid
